@@ -676,7 +676,16 @@ class Exec:
                     return self.from_bytes(ety, b[i * sz:(i + 1) * sz])
         return mk("index", v, idx)
 
-    def from_bytes(self, ty, hx):
+    def from_bytes(self, ty, hx, fields=None):
+        if fields and ty not in ("TwoFloat", "f64") and not ty.startswith("[") and not ty.startswith("core::ops::RangeInclusive<"):
+            # a tuple / struct constant taken apart by the layout the compiler gave it
+            parts = []
+            for fd in fields:
+                fty = F.norm_ty(fd["ty"]); o_ = 2 * int(fd["off"]); n_ = 2 * int(fd["size"])
+                parts.append(self.from_bytes(fty, hx[o_:o_ + n_], fd.get("fields")))
+            if ty.startswith("("):
+                return mk("agg", ("tuple",), tuple(parts))
+            return mk("agg", ("adt", ty, 0, ty.split("::")[-1]), tuple(parts))
         if ty == "f64":
             return mk_const("f64", F.words_from_hex(hx)[0])
         if ty == "TwoFloat":
@@ -837,7 +846,7 @@ class Exec:
         if k == "zst":
             return mk("unit") if ty == "()" else mk("zst", canon_generic(ty))
         if k == "bytes" and "hex" in v:
-            return self.from_bytes(ty, v["hex"])
+            return self.from_bytes(ty, v["hex"], v.get("fields"))
         if k == "slice" and "str" in v:
             return mk("str", v["str"])
         if k == "strs" and "items" in v:
@@ -923,6 +932,26 @@ class Exec:
             sv = to_signed(b[1], cint(b))
             if 0 <= sv < 256:
                 b = mk_const("u32", sv)
+        if ty in INT_BITS and is_const(b) and not is_const(a):
+            cb = to_signed(ty, cint(b))
+            nf = None
+            if base == "Rem" and ty.startswith("u") and cb > 0 and cb & (cb - 1) == 0 and not with_ovf:
+                # x % 2^k == x & (2^k - 1) for unsigned x
+                return self.binop("BitAnd", ty, a, mk_const(ty, cb - 1))
+            if base == "Div" and ty.startswith("u") and cb > 1 and cb & (cb - 1) == 0 and not with_ovf:
+                # x / 2^k == x >> k for unsigned x
+                return self.binop("Shr", ty, a, mk_const("u32", cb.bit_length() - 1))
+            if base in ("Add", "Sub") and tag(a) == "i" and a[1] in ("add", "sub") and a[2] == ty and is_const(a[4]):
+                # (x +- c1) +- c2 == x +- (c1 +- c2): equal in wrapping arithmetic, hence whenever neither form overflows
+                c1 = to_signed(ty, cint(a[4])) * (1 if a[1] == "add" else -1)
+                c2 = cb * (1 if base == "Add" else -1)
+                tot = c1 + c2
+                if in_range(ty, abs(tot)):
+                    nf = a[3] if tot == 0 else mk("i", "add" if tot > 0 else "sub", ty, a[3], mk_const(ty, from_signed(ty, abs(tot))))
+            if nf is not None:
+                if with_ovf:
+                    return mk("agg", ("tuple",), (nf, mk("i", base.lower() + "_ovf", ty, a, b)))
+                return nf
         res = None; ovf = None
         if is_const(a) and is_const(b) and ty in INT_BITS:
             x, y = to_signed(ty, cint(a)), to_signed(ty, cint(b))
@@ -1436,6 +1465,14 @@ class Exec:
                 ml = re.match(r"^\[(.*); (\d+)\]$", arr[1])
                 if ml:
                     return mk_const("usize", int(ml.group(2)))
+        if base == "core::ops::RangeInclusive::<Idx>::contains" and len(args) == 2:
+            rng = self.deref_value(st, args[0]); item = self.deref_value(st, args[1])
+            if tag(rng) == "call" and rng[1].startswith("core::ops::RangeInclusive::<Idx>::new<") and len(rng) == 4 \
+                    and all(is_const(x) and x[1] in INT_BITS for x in (rng[2], rng[3], item)) and rng[2][1] == item[1] == rng[3][1]:
+                ty_ = item[1]
+                return mk_const("bool", int(to_signed(ty_, cint(rng[2])) <= to_signed(ty_, cint(item)) <= to_signed(ty_, cint(rng[3]))))
+        if base == "core::convert::identity" and len(args) == 1:
+            return args[0]
         if base == "<I as core::iter::IntoIterator>::into_iter" and len(args) == 1:
             return args[0]      # the blanket impl for iterators: `fn into_iter(self) -> I { self }`
         m = self._ARITH.match(base)
@@ -1453,6 +1490,10 @@ class Exec:
             return mk("f", "fma", a, b, c, base)
         if base == "core::f64::<impl f64>::from_bits" and len(args) == 1:
             v = self.deref_value(st, args[0])
+            if is_const(v) and v[1] == "u64":
+                b_ = cint(v)
+                if not ((b_ >> 52) & 0x7ff == 0x7ff and b_ & ((1 << 52) - 1)):      # not a NaN pattern
+                    return mk_const("f64", b_)
             # from_bits(to_bits(x) & 0x7fff_ffff_ffff_ffff) is |x| exactly (libm::fabs)
             if tag(v) == "i" and v[1] == "bitand" and v[2] == "u64":
                 for x, m in ((v[3], v[4]), (v[4], v[3])):
@@ -1486,6 +1527,16 @@ class Exec:
                 return mk("discr", v)
             c = mk("cmp", "eq", "i8", od(args[0]), od(args[1]))
             return c if base.endswith("::eq") else mk("not", c)
+        if (base in ("<core::num::FpCategory as core::cmp::PartialEq>::eq", "<core::num::FpCategory as core::cmp::PartialEq>::ne")
+                or (base == "core::cmp::PartialEq::ne" and [canon_generic(a_) for a_ in (r.get("args") or [])] == ["core::num::FpCategory"] * 2)) and len(args) == 2:
+            # a field-less enum of core with a derived PartialEq: equality of discriminants (Nan 0, Infinite 1, Zero 2, Subnormal 3, Normal 4)
+            def fd(v):
+                v = self.deref_value(st, v)
+                if tag(v) == "agg" and v[1][0] == "adt" and v[1][1].endswith("FpCategory"):
+                    return mk_const("isize", v[1][2])
+                return mk("discr", v)
+            c = self.binop("Eq", "isize", fd(args[0]), fd(args[1]))
+            return c if base.endswith("::eq") else (mk("not", c) if not is_const(c) else mk_const("bool", 1 - cint(c)))
         if base in ("core::ops::RangeInclusive::<Idx>::end", "core::ops::RangeInclusive::<Idx>::start") and len(args) == 1:
             rng = self.deref_value(st, args[0])
             if tag(rng) == "call" and rng[1].startswith("core::ops::RangeInclusive::<Idx>::new") and len(rng) == 4:
@@ -1596,9 +1647,21 @@ class Exec:
     def do_call(self, st, fr, t):
         args = [self.operand(st, fr, a) for a in t["args"]]
         if "f" not in t:
-            fv = self.operand(st, fr, t["fop"])
-            name, callee, r = "indirect", None, None
-            return self.opaque_call(st, fr, t, "indirect:" + repr(fv)[:40], args)
+            fv = self.deref_value(st, self.operand(st, fr, t["fop"]))
+            if tag(fv) == "fnitem":
+                # a call through a `fn(..) -> ..` pointer whose value is a known function item (a private helper handed
+                # `libm::ceil`): the call of that function
+                nm = fv[1]
+                lb = self.facts.get(nm)
+                if lb is not None:
+                    fd_ = {"def": lb.path, "res": {"def": lb.path, "key": lb.key, "args": [], "local": True}}
+                else:
+                    base_ = nm.split("<")[0]
+                    fd_ = {"def": base_, "res": {"def": base_, "args": [], "local": False}}
+                t = dict(t, f=fd_)
+            else:
+                name, callee, r = "indirect", None, None
+                return self.opaque_call(st, fr, t, "indirect:" + repr(fv)[:40], args)
         fdesc = t["f"]
         if fdesc.get("res") is None and fr.subst:
             fdesc = self.resolve_generic(fr, fdesc)
@@ -1833,7 +1896,7 @@ class Exec:
                             r_ = self.split_on_flag(st, fr, cnd, s["lhs"], F.norm_ty(rv_["ty"]), bi, k_s + 1)
                             if r_ is not None:
                                 return r_
-                    if "cast" in rv_ and rv_["cast"] == "IntToInt" and self.hooks is None:
+                    if "cast" in rv_ and rv_["cast"] == "IntToInt":
                         # `e as usize` for a field-less enum of this crate: one case per variant
                         dv = self.operand(st, fr, rv_["a"])
                         vs_ = self.facts.enums.get(self.discr_ty.get(dv, "")) if tag(dv) == "discr" else None
